@@ -971,7 +971,9 @@ func (l *Loader) appendSubgraphError(res *result, fetchItem *FetchItem, value *a
 	graphqlErrors := make([]GraphQLError, 0, len(values))
 	err := json.Unmarshal(errorsJSON, &graphqlErrors)
 	if err != nil {
-		return errors.WithStack(err)
+		// Errors the gateway cannot decode (for example a "path" that is not a list) are this
+		// subgraph's failure, not a reason to abort the whole response: report it without the details.
+		graphqlErrors = nil
 	}
 
 	subgraphError := NewSubgraphError(res.ds, fetchItem.ResponsePath, failedToFetchNoReason, res.statusCode)
